@@ -136,7 +136,31 @@ def c05(chk, thorough):
     chk.floor('LY.decompose', 3)
 
 
+def c16(chk, thorough):
+    from . import ioflow
+    chk.explanation = (
+        'Decides the structural clauses of C16: (a) for PCA/CPCA/PLS the tables written and read agree on (table name, codec, '
+        'model field) and every container field of the model struct is persisted; (b) each serialiser/deserialiser pair agrees '
+        'on the stream grammar and the serialiser allocates exactly what it emits; (c) history clause: every Write* empties a '
+        'table before inserting into it (SQL effects classified from the constant strings reaching sqlite3_exec/prepare); '
+        '(d) writing never stores through the model; (e) the textual conversion keeps >= 15 fractional digits. NOT decided: '
+        'SQLite internals, text->double rounding, prediction equality after reload.')
+    chk.assumptions = ['sqlite3_exec/sqlite3_prepare_v2(+step) are the only ways SQL reaches the database',
+                       'a SELECT that merely builds statement text is not destructive unless a registered callback executes its rows']
+    prog = load_program(chk, ['io.c', 'pca.c', 'cpca.c', 'pls.c', 'vector.c', 'matrix.c', 'tensor.c', 'list.c'])
+    nt = ioflow.run(chk, prog)
+    want = {'PCA': 5, 'CPCA': 9, 'PLS': 30}
+    for k, n in want.items():
+        if nt.get(k, (0, 0))[0] < n or nt.get(k, (0, 0))[1] < n:
+            chk.broke('%s: %s write/read table call sites found, floor %d' % (k, nt.get(k), n))
+    chk.floor('IO.grammar', 6)
+    chk.floor('IO.truncate', 3)
+    chk.floor('IO.pure-writer', 3)
+    chk.floor('IO.precision', 1)
+
+
 CHECKS = {
+    'C16': c16,
     'C05': c05,
     'C03': c03,
     'C18': c18,
